@@ -280,8 +280,18 @@ def r_tag(sh, rep):
         rep.bad("R12-TAG", "constrData-sites", GEN, "expected at least 3 constrData sites with a computed index in gen_uplc.rs (found %d; anchor)" % comp)
     # the schema generator's @list test is the code generator's: the type's decorators, nothing about how the type is written
     sg = [fn for q, fn in all_fns(sh.file(SCH)) if q.endswith("Data::from_data_type")][0]
-    lst = [n for n in walk(sg["body"]) if n["k"] == "If" and "DecoratorKind::List" in sh.nsrc(SCH, n["cond"])]
-    rep.check(bool(lst) and all(".sugar" not in sh.nsrc(SCH, n["cond"]) for n in lst), "R12-TAG", "from_data_type#@list-does-not-depend-on-sugar", sh.loc(SCH, lst[0]) if lst else SCH, "the schema generator honours `@list` only for types written with the record sugar; the code generator represents every `@list` type as a list, so for `type T { C { .. } }` the blueprint publishes a constructor the validator never accepts")
+    sg_locals = {n["pat"]["name"]: sh.nsrc(SCH, n["init"]) for n in walk(sg["body"]) if n["k"] == "Local" and n["pat"].get("k") == "Ident" and n.get("init") is not None}
+
+    def cond_src(n):
+        c = sh.nsrc(SCH, n["cond"])
+        # a condition given a name (`let is_list = ..; if is_list`) is read through the name
+        for name, init in sg_locals.items():
+            if re.search(r"(?<![\w.])%s\b" % re.escape(name), c):
+                c += " " + init
+        return c
+
+    lst = [n for n in walk(sg["body"]) if n["k"] == "If" and "DecoratorKind::List" in cond_src(n)]
+    rep.check(bool(lst) and all(".sugar" not in cond_src(n) for n in lst), "R12-TAG", "from_data_type#@list-does-not-depend-on-sugar", sh.loc(SCH, lst[0]) if lst else SCH, "the schema generator honours `@list` only for types written with the record sugar; the code generator represents every `@list` type as a list, so for `type T { C { .. } }` the blueprint publishes a constructor the validator never accepts")
     if n_sites < 3:
         rep.bad("R12-TAG", "tag-sites#found", GEN, "expected three @tag lookups (schema generator, get_constr_index_variant, expect decoder), found %d" % n_sites)
 
